@@ -111,6 +111,16 @@ func c03VerifPoint(ctx context.Context, name string, index int) error {
 		if c03P.event("commit") {
 			return c03ErrInjected
 		}
+		// the COMMIT statement itself fails: end the SQL transaction behind the controller's back, so
+		// that the real tx.Commit() answers an error and leaves the sql.Tx finished (what a lost
+		// connection or a full disk does); TxController.Rollback then gets sql.ErrTxDone from
+		// t.tx.Rollback() and must still run every rollback closure
+		if c03P.event("commit-stmt") {
+			if tx, ok := database.TxControllerFromContext(ctx); ok {
+				_, _ = tx.SqlTx().ExecContext(ctx, "ROLLBACK")
+			}
+			return nil
+		}
 	}
 	// every other point (tx.committed, tx.aftercommit, tx.done, tx.rollback, fs.*) is a crash point
 	// only: an error there cannot occur naturally and is not injected
